@@ -25,7 +25,8 @@ Proof.
   - dbind H as [s1 v1]. apply IHa in E.
     destruct v1; try discriminate;
       try (destruct (py_own_attr f); [discriminate|]);
-      try (injection H as <- _; exact E).
+      try (injection H as <- _; exact E);
+      try (destruct (String.eqb f "id"); [injection H as <- _; exact E|discriminate]).
     + destruct (nth_error (heap s1) h); [|discriminate].
       destruct (row_attr c f); injection H as <- _; exact E.
     + destruct (String.eqb f "id"); [|discriminate]. dbind H as [s2 i].
@@ -75,6 +76,7 @@ Proof.
       destruct (row_attr c p); [|discriminate]. injection E as <- _. reflexivity.
     + destruct (String.eqb p "id"); [|discriminate]. dbind E as [s2 i].
       injection E as <- _. apply touch_slot_heap in E0. exact E0.
+    + destruct (String.eqb p "id"); [|discriminate]. injection E as <- _. reflexivity.
 Qed.
 
 Lemma reference_heap e path s s' v : reference e path s = Ok (s', v) -> same_heap s s'.
@@ -87,7 +89,11 @@ Proof.
   - injection H as <- _. exact E0.
   - dbind H as [s2 i]. injection H as <- _.
     apply touch_slot_heap in E1. unfold same_heap in *. congruence.
+  - injection H as <- _. exact E0.
 Qed.
+
+Lemma rnd_only_heap s s' : rnd_only s s' -> heap s' = heap s.
+Proof. intros [x ->]. reflexivity. Qed.
 
 
 Lemma flatten_fields_heap fs : forall s s' l, flatten_fields s fs = Ok (s', l) -> same_heap s s'.
@@ -192,9 +198,10 @@ Proof.
   - destruct x as [t|name d].
     + destruct (t_once t && c); [injection H as <- _; apply heap_ext_refl|].
       dbind H as [s1 r1]. injection H as <- _. apply IH in E. exact E.
-    + dbind H as [s1 r1]. injection H as <- _. apply IH in E.
-      eapply heap_ext_trans; [apply (heap_ext_eq s (push_frame s)); reflexivity|].
-      eapply heap_ext_trans; [exact E|]. apply heap_ext_eq. rewrite set_var_heap, pop_frame_heap. reflexivity.
+    + destruct d; try discriminate;
+        (dbind H as [s1 r1]; injection H as <- _; apply IH in E;
+         (eapply heap_ext_trans; [apply (heap_ext_eq s (push_frame s)); reflexivity|]);
+         (eapply heap_ext_trans; [exact E|]); apply heap_ext_eq; rewrite set_var_heap, pop_frame_heap; reflexivity).
   - dbind H as [s1 cnt]. dbind H as [s2 r2]. injection H as <- _.
     assert (H1 : heap_ext s s1).
     { destruct (t_count t) as [d|].
@@ -210,11 +217,12 @@ Proof.
   - destruct (new_row_id s (t_table t) (t_nick t)) as [s1 id] eqn:Hid.
     dbind H as [s4 r4].
     destruct (nth_error (heap s4) (length (heap s1))) as [c|]; [|discriminate].
-    dbind H as s6. dbind H as [s7 r7]. injection H as <- _.
-    apply IH in E. apply IH in E1. apply write_row_heap in E0. rewrite remember_deps_heap in E0.
+    dbind H as s5. dbind H as s6. dbind H as [s7 r7]. injection H as <- _.
+    apply IH in E. apply IH in E2. apply write_row_heap in E1.
+    apply remember_history_rnd in E0. apply rnd_only_heap in E0. rewrite E0, remember_deps_heap in E1.
     assert (H0 : heap s1 = heap s).
     { pose proof (new_row_id_heap s (t_table t) (t_nick t)) as Hn. rewrite Hid in Hn. exact Hn. }
-    eapply heap_ext_trans; [|exact E1]. eapply heap_ext_trans; [|apply heap_ext_eq; exact E0].
+    eapply heap_ext_trans; [|exact E2]. eapply heap_ext_trans; [|apply heap_ext_eq; exact E1].
     eapply heap_ext_trans; [|exact E].
     eapply heap_ext_trans; [apply heap_ext_eq; exact H0|].
     eapply heap_ext_trans; [apply heap_snoc_ext|].
@@ -223,13 +231,15 @@ Proof.
     destruct (String.eqb name "id"); [discriminate|].
     dbind H as [s1 v]. apply IH in E. apply IH in H.
     eapply heap_ext_trans; [exact E|]. eapply heap_ext_trans; [apply set_field_ext|exact H].
-  - destruct d as [z|x|ps|path|t].
+  - destruct d as [z|x|ps|path|t|to].
     + injection H as <- _. apply heap_ext_refl.
     + destruct (version e =? 3); [injection H as <- _; apply heap_ext_refl|].
       dbind H as w0. injection H as <- _. apply heap_ext_refl.
     + dbind H as [s1 v]. injection H as <- _. apply heap_ext_eq. apply render_formula_heap in E. exact E.
     + dbind H as [s1 v]. injection H as <- _. apply heap_ext_eq. apply reference_heap in E. exact E.
     + apply IH in H. exact H.
+    + dbind H as [s1 v]. injection H as <- _. apply heap_ext_eq. apply rnd_only_heap.
+      eapply random_reference_rnd. exact E.
 Qed.
 
 (* ------------------------------------------------------------------ emission order of one row *)
@@ -248,7 +258,8 @@ Proof.
   destruct (new_row_id s (t_table t) (t_nick t)) as [s1 id] eqn:Hid.
   dbind H as [s4 r4].
   destruct (nth_error (heap s4) (length (heap s1))) as [c|] eqn:Hc; [|discriminate].
-  dbind H as s6. dbind H as [s7 r7]. injection H as <- _.
+  dbind H as s5. dbind H as s6. dbind H as [s7 r7]. injection H as <- _.
+  pose proof (remember_history_rnd _ _ _ _ _ _ E0) as Hrnd.
   pose proof (new_row_id_out s (t_table t) (t_nick t)) as H0. rewrite Hid in H0. cbn [fst] in H0.
   (* the cell being written is the one created for this row *)
   assert (Hct : c_table c = t_table t).
@@ -261,9 +272,9 @@ Proof.
     destruct (Hext _ _ Hn3) as (c' & Hc' & k1 & _). rewrite Hc in Hc'. injection Hc' as <-. exact k1. }
   apply run_extends in E. destruct E as (nf & Hnf & Fnf).
   rewrite register_object_out, set_obj_out in Hnf. cbn [out upd_heap] in Hnf. rewrite H0 in Hnf.
-  apply run_extends in E1. destruct E1 as (nfr & Hnfr & Fnfr).
-  apply write_row_spec in E0. rewrite remember_deps_out, remember_deps_heap in E0.
-  destruct E0 as [Hs|(row & Hr & Hclean & c' & Hc' & Ht & _)].
+  apply run_extends in E2. destruct E2 as (nfr & Hnfr & Fnfr).
+  apply write_row_spec in E1. rewrite (rnd_only_out _ _ Hrnd), (rnd_only_heap _ _ Hrnd), remember_deps_out, remember_deps_heap in E1.
+  destruct E1 as [Hs|(row & Hr & Hclean & c' & Hc' & Ht & _)].
   - exists nf, [], nfr. rewrite Hnfr, Hs, Hnf. cbn [app]. splits; auto.
   - exists nf, [row], nfr. rewrite Hnfr, Hr, Hnf. cbn [app]. splits; auto.
     right. exists row. splits; auto. rewrite Hc in Hc'. injection Hc' as <-. congruence.
